@@ -1,7 +1,7 @@
 (* Facts about inserted sheets (Insert.v): whatever stops a sheet stops every sheet that inserts it — at any depth,
    because the statement is about one insert row and the inserted sheet is arbitrary. *)
 From Coq Require Import List NArith ZArith Bool.
-From RPFT Require Import Base.Sexp Base.PyStr Base.Result Gen.Tables Cell.Cell Tmpl.MiniJinja Tmpl.RowLoop Tmpl.Insert.
+From RPFT Require Import Base.Sexp Base.PyStr Base.Result Gen.Tables Cell.Cell Tmpl.MiniJinja Tmpl.RowLoop Tmpl.TmplFacts Tmpl.Insert.
 Import ListNotations.
 Local Open Scope N_scope.
 
@@ -55,11 +55,40 @@ Theorem excluded_insert_not_evaluated : forall f bk inc name arg rest cx log,
   run_bsheet pe pn (S f) bk (SInsert inc name arg :: rest) cx log = run_bsheet pe pn f bk rest cx log.
 Proof. intros f bk inc name arg rest cx log Hi. cbn [run_bsheet]. rewrite Hi. reflexivity. Qed.
 
+Lemma insert_excluded_by_false_f : forall fx cx inc arg pi s,
+  parse_as_string_m pe pn (Some cx) inc = Ok pi -> to_text pn pi = Ok s ->
+  str_eqb (lower (strip s)) s_false = true ->
+  inst_insert_f pe pn fx cx inc arg = Ok None.
+Proof.
+  intros fx cx inc arg pi s Hp Ht Hs. unfold inst_insert_f, precheck_excluded. rewrite Hp, Ht.
+  unfold s_false in Hs. rewrite Hs. reflexivity.
+Qed.
+
 Lemma insert_excluded_by_false : forall cx inc arg pi s,
   parse_as_string_m pe pn (Some cx) inc = Ok pi -> to_text pn pi = Ok s ->
   str_eqb (lower (strip s)) s_false = true ->
   inst_insert pe pn cx inc arg = Ok None.
-Proof. intros cx inc arg pi s Hp Ht Hs. unfold inst_insert. rewrite Hp, Ht, Hs. reflexivity. Qed.
+Proof. intros. unfold inst_insert. eapply insert_excluded_by_false_f; eassumption. Qed.
+
+(* fx = true: an insert row excluded by ANY inclusion value — its argument cell is not evaluated *)
+Lemma insert_excluded_by_falsy : forall cx inc arg pi s,
+  parse_as_string_m pe pn (Some cx) inc = Ok pi -> to_text pn pi = Ok s ->
+  to_include pn pi = Ok false ->
+  inst_insert_f pe pn true cx inc arg = Ok None.
+Proof.
+  intros cx inc arg pi s Hp Ht Hi.
+  destruct (str_eqb (lower (strip s)) s_false) eqn:Hf.
+  - exact (insert_excluded_by_false_f true cx inc arg pi s Hp Ht Hf).
+  - unfold inst_insert_f, precheck_excluded. rewrite Hp, Ht. unfold s_false in Hf. rewrite Hf.
+    destruct pi as [s0|v|n].
+    + cbn [to_text] in Ht. inversion Ht; subst s0. cbn [to_include] in Hi. inversion Hi as [Hi'].
+      rewrite (str_to_include_false _ Hi') in Hf. discriminate.
+    + destruct v; cbn [to_include] in Hi; try (rewrite Hi; reflexivity).
+      cbn [to_text] in Ht. inversion Hi as [Hi'].
+      assert (Hs : s = s0) by (unfold to_str in Ht; cbn in Ht; congruence).
+      subst. rewrite (str_to_include_false _ Hi') in Hf. discriminate.
+    + cbn [to_text] in Ht. discriminate.
+Qed.
 
 (* 3. ordinary rows: what stops the row loop of a segment stops the sheet *)
 Lemma sheet_fuel_S : exists k, N.to_nat 20000 = S k.
@@ -81,17 +110,17 @@ Proof.
   cbn [parse_block]. rewrite Hn. cbn [negb]. rewrite Hi. reflexivity.
 Qed.
 
-(* the main cell of an included row *)
-Lemma included_row_main_error : forall cx r log pi s inc e,
+(* the main cell of a row that the pre-check does not exclude *)
+Lemma included_row_main_error : forall fx cx r log pi inc e,
   parse_as_string_m pe pn (Some cx) (r_inc r) = Ok pi ->
-  to_text pn pi = Ok s -> str_eqb (lower (strip s)) s_false = false ->
+  precheck_excluded pn fx pi = Ok false ->
   to_include pn pi = Ok inc ->
   rk r = KPlain ->
   parse_as_string_m pe pn (Some cx) (r_main r) = Err e ->
-  exists log2, inst_row_incl pe pn (Some cx) r log = (log2, Err e).
+  exists log2, inst_row_incl_f pe pn fx (Some cx) r log = (log2, Err e).
 Proof.
-  intros cx r log pi s inc e Hp Ht Hs Hinc Hk Hm.
-  unfold inst_row_incl. rewrite Hp, Ht. unfold s_false in Hs. rewrite Hs.
+  intros fx cx r log pi inc e Hp Hpre Hinc Hk Hm.
+  unfold inst_row_incl_f. rewrite Hp, Hpre.
   unfold inst_row. rewrite Hp, Hinc, Hk, Hm. eexists. reflexivity.
 Qed.
 
@@ -129,21 +158,63 @@ Definition insert_example : Prop :=
 Lemma insert_example_holds : insert_example.
 Proof. vm_compute. repeat split; reflexivity. Qed.
 
-(* ---- a row excluded by a falsy OBJECT is evaluated all the same (finding falsy-include_if-row-evaluated) ----
-   The faithful model: include_if = {@ none @} makes to_include answer "not included" (RowParser: bool(None)), but the
-   pre-check of SheetParser.parse_next_row compares str(value) with "false", "None" is not "false", the row is parsed with
-   templating and its main cell — an unknown name — stops the run. *)
+(* ---- rows excluded by a falsy OBJECT (finding falsy-include_if-row-evaluated) ----
+   fx = false, the pre-check before 323c1cc: include_if = {@ none @} makes to_include answer "not included" (RowParser:
+   bool(None)), but str(value) = "None" is not "false", the row is parsed with templating and its main cell — an unknown
+   name — stops the run. *)
 Definition falsy_include_if_witness : Prop :=
   let r := mk_srow KPlain (CNative ENone) (CTmpl [NText [109; 32]; NOut (EVar [110; 109; 97; 101])]) in
   let cx := [([110; 97; 109; 101], VStr [65])] in
   parse_as_string_m Strict Strict (Some cx) (r_inc r) = Ok (PObj VNone)
-  /\ to_include Strict (PObj VNone) = Ok false                       (* the row is NOT included ... *)
-  /\ snd (inst_row_incl Strict Strict (Some cx) r []) = Err EUndefined   (* ... and evaluated nevertheless *)
+  /\ to_include Strict (PObj VNone) = Ok false                                (* the row is NOT included ... *)
+  /\ snd (inst_row_incl_f Strict Strict false (Some cx) r []) = Err EUndefined   (* ... and evaluated nevertheless *)
+  /\ inst_insert_f Strict Strict false cx (CNative ENone) (CTmpl [NOut (EVar [110; 109; 97; 101])]) = Err EUndefined
   /\ (* the same row under the literal FALSE is not evaluated *)
-  (exists mv, snd (inst_row_incl Strict Strict (Some cx) (mk_srow KPlain (lit s_false) (r_main r)) []) = Ok (false, mv)).
+  (exists mv, snd (inst_row_incl_f Strict Strict false (Some cx) (mk_srow KPlain (lit s_false) (r_main r)) []) = Ok (false, mv)).
 
 Lemma falsy_include_if_witness_holds : falsy_include_if_witness.
 Proof.
   unfold falsy_include_if_witness. split; [vm_compute; reflexivity|]. split; [vm_compute; reflexivity|].
-  split; [vm_compute; reflexivity|]. eexists. vm_compute. reflexivity.
+  split; [vm_compute; reflexivity|]. split; [vm_compute; reflexivity|]. eexists. vm_compute. reflexivity.
 Qed.
+
+(* fx = true: a row — ordinary or insert_as_block — excluded by ANY inclusion value is not evaluated *)
+Definition falsy_rows_not_evaluated (fx : bool) : Prop :=
+  (forall pe pn cx r log pi s,
+     parse_as_string_m pe pn (Some cx) (r_inc r) = Ok pi -> to_text pn pi = Ok s -> to_include pn pi = Ok false ->
+     exists mv, inst_row_incl_f pe pn fx (Some cx) r log = (log_render (Some cx) (r_inc r) log, Ok (false, mv)))
+  /\ (forall pe pn cx inc arg pi s,
+        parse_as_string_m pe pn (Some cx) inc = Ok pi -> to_text pn pi = Ok s -> to_include pn pi = Ok false ->
+        inst_insert_f pe pn fx cx inc arg = Ok None).
+
+Lemma falsy_rows_not_evaluated_repaired : falsy_rows_not_evaluated true.
+Proof.
+  split.
+  - exact falsy_excluded_row_not_evaluated.
+  - intros pe pn. exact (insert_excluded_by_falsy pe pn).
+Qed.
+
+(* decided for the code of this run (probed constant falsy_include_if_skips_evaluation) *)
+Theorem falsy_include_if_decided :
+  if falsy_include_if_skips_evaluation
+  then falsy_rows_not_evaluated falsy_include_if_skips_evaluation
+  else falsy_include_if_witness.
+Proof.
+  destruct falsy_include_if_skips_evaluation.
+  - exact falsy_rows_not_evaluated_repaired.
+  - exact falsy_include_if_witness_holds.
+Qed.
+
+(* non-vacuity of the repaired statement: the three falsy objects, an ordinary row and an insert row *)
+Definition falsy_rows_example : Prop :=
+  let cx := [([110; 97; 109; 101], VStr [65])] in
+  let bad := CTmpl [NText [109; 32]; NOut (EVar [110; 109; 97; 101])] in
+  Forall (fun inc => snd (inst_row_incl_f Strict Strict true (Some cx) (mk_srow KPlain inc bad) []) = Ok (false, MText (strip (show_cell bad)))
+                     /\ inst_insert_f Strict Strict true cx inc bad = Ok None
+                     /\ to_include Strict (PObj (match inc with CNative ENone => VNone | CNative (EInt _) => VInt 0 | _ => VList [] end)) = Ok false)
+         [CNative ENone; CNative (EInt 0); CNative (EList [])]
+  /\ (* a truthy object does not protect the row *)
+  snd (inst_row_incl_f Strict Strict true (Some cx) (mk_srow KPlain (CNative (EInt 1)) bad) []) = Err EUndefined.
+
+Lemma falsy_rows_example_holds : falsy_rows_example.
+Proof. vm_compute. repeat constructor. Qed.
